@@ -37,8 +37,10 @@ static char g_sigsuffix[80];
         mc_violation(s_, "%s: %s", g_case, m_);                                                                                     \
     } while (0)
 
-static const int32 NTS[] = {DFNT_INT8, DFNT_UINT8, DFNT_INT16, DFNT_UINT16, DFNT_INT32, DFNT_FLOAT32, DFNT_FLOAT64};
-#define NNT 7
+static const int32 NTS[] = {DFNT_INT8, DFNT_UINT8, DFNT_INT16, DFNT_UINT16, DFNT_INT32, DFNT_FLOAT32, DFNT_FLOAT64,
+                            DFNT_LINT16, DFNT_LINT32, DFNT_LFLOAT32, DFNT_LFLOAT64}; /* little-endian storage as well */
+#define NNT 11
+#define ESZ(nt) DFKNTsize((((int32)(nt)) & ~DFNT_LITEND) | DFNT_NATIVE)
 static const int32 SHAPES[][4] = {{1, 5, 0, 0}, {2, 3, 4, 0}, {2, 1, 6, 0}, {3, 2, 3, 4}, {3, 3, 1, 2}}; /* rank, dims */
 #define NSHAPE 5
 
@@ -48,7 +50,7 @@ fill_values(int32 nt, long n, void *out, int salt)
 {
     for (long i = 0; i < n; i++) {
         long v = (i * 7 + salt * 13) % 101 - 20;
-        switch (nt) {
+        switch (nt & ~DFNT_LITEND) {
             case DFNT_INT8: ((int8 *)out)[i] = (int8)v; break;
             case DFNT_UINT8: ((uint8 *)out)[i] = (uint8)(v + 20); break;
             case DFNT_INT16: ((int16 *)out)[i] = (int16)(v * 300); break;
@@ -105,7 +107,7 @@ dfsd_write(const sds_t *s, int append)
     if (s->extras) {
         DFSDsetdatastrs("label", "unit", "fmt", "coords");
         DFSDsetdimstrs(1, "dl", "du", "df");
-        DFSDsetrange((VOIDP)(s->data + DFKNTsize(s->nt | DFNT_NATIVE)), (VOIDP)s->data);
+        DFSDsetrange((VOIDP)(s->data + ESZ(s->nt)), (VOIDP)s->data);
     }
     int rc = append ? DFSDadddata(PATH, s->rank, (int32 *)s->dims, (VOIDP)s->data) : DFSDputdata(PATH, s->rank, (int32 *)s->dims, (VOIDP)s->data);
     return rc == FAIL ? -1 : 0;
@@ -127,7 +129,7 @@ sd_write(const sds_t *s, int create, const char *name)
     if (!rc && s->extras) {
         SDsetdatastrs(id, "label", "unit", "fmt", "coords");
         SDsetdimstrs(SDgetdimid(id, 0), "dl", "du", "df");
-        SDsetrange(id, (VOIDP)(s->data + DFKNTsize(s->nt | DFNT_NATIVE)), (VOIDP)s->data);
+        SDsetrange(id, (VOIDP)(s->data + ESZ(s->nt)), (VOIDP)s->data);
     }
     if (id != FAIL)
         SDendaccess(id);
@@ -146,7 +148,7 @@ dfsd_check(const sds_t *s, int idx, const char *who, int strict)
 {
     int32 rank = 0, dims[8] = {0}, nt = 0;
     uint8 buf[24 * 8 + 8];
-    int   esz = DFKNTsize(s->nt | DFNT_NATIVE), found = 0;
+    int   esz = ESZ(s->nt), found = 0;
     long  nb  = nelem(s->rank, s->dims) * esz;
     DFSDrestart();
     if (strict) {
@@ -243,7 +245,7 @@ sd_check(const sds_t *s, int idx, const char *who)
     }
     else {
         uint8 buf[24 * 8 + 8];
-        int   esz = DFKNTsize(nt | DFNT_NATIVE);
+        int   esz = ESZ(nt);
         long  nb  = nelem(rank, dims) * esz;
         memset(buf, 0xEE, sizeof buf);
         if (SDreaddata(id, st, NULL, dims, buf) == FAIL || memcmp(buf, s->data, (size_t)nb))
@@ -284,7 +286,7 @@ case_sds(long idx, void *ctx)
 {
     (void)ctx;
     /* idx -> direction(2) x shape(5) x nt(7) x mask(8) x extras(2); second data set appended for half of them */
-    int dir = (int)(idx % 2), shape = (int)(idx / 2 % NSHAPE), nt = (int)(idx / 10 % NNT), mask = (int)(idx / 70 % 8), extras = (int)(idx / 560 % 2);
+    int dir = (int)(idx % 2), shape = (int)(idx / 2 % NSHAPE), nt = (int)(idx / 10 % NNT), mask = (int)(idx / (10 * NNT) % 8), extras = (int)(idx / (80 * NNT) % 2);
     int rank = SHAPES[shape][0];
     if (mask >= (1 << rank))
         return;
@@ -357,7 +359,7 @@ case_recvar(long idx, void *ctx)
         S  = SDstart(PATH, DFACC_RDWR);
         ia = SDselect(S, SDnametoindex(S, "rec_a"));
         int32 s2[2] = {CNT[c][0], 0}, c2[2] = {1, 4};
-        if (SDwritedata(ia, s2, NULL, c2, a.data + (long)CNT[c][0] * 4 * DFKNTsize(a.nt | DFNT_NATIVE)) == FAIL)
+        if (SDwritedata(ia, s2, NULL, c2, a.data + (long)CNT[c][0] * 4 * ESZ(a.nt)) == FAIL)
             rc = -1;
         SDendaccess(ia);
         if (SDend(S) == FAIL)
@@ -1149,11 +1151,11 @@ case_legacy(long idx, void *ctx)
             else if (SDgetinfo(s, nm, &rk, dm, &nt, &nat) != FAIL && !SDiscoordvar(s)) {
                 long ne = nelem(rk, dm);
                 if (ne > 0 && ne < 2000000) {
-                    uint8 *b = calloc(1, (size_t)(ne * DFKNTsize(nt | DFNT_NATIVE)) + 8);
+                    uint8 *b = calloc(1, (size_t)(ne * ESZ(nt)) + 8);
                     if (SDreaddata(s, st, NULL, dm, b) != FAIL) {
                         uint64_t h = mc_hash_i(mc_hash_i(MC_H0, rk), nt & ~DFNT_LITEND);
                         h          = mc_hash(h, dm, sizeof(int32) * (size_t)rk);
-                        sdh[nsd++] = mc_hash(h, b, (size_t)(ne * DFKNTsize(nt | DFNT_NATIVE)));
+                        sdh[nsd++] = mc_hash(h, b, (size_t)(ne * ESZ(nt)));
                     }
                     free(b);
                 }
@@ -1182,11 +1184,11 @@ case_legacy(long idx, void *ctx)
         }
         if (ne <= 0 || ne >= 2000000)
             continue;
-        uint8 *b = calloc(1, (size_t)(ne * DFKNTsize(nt | DFNT_NATIVE)) + 8);
+        uint8 *b = calloc(1, (size_t)(ne * ESZ(nt)) + 8);
         if (DFSDgetdata(PATH, rk, dm, b) != FAIL) {
             uint64_t h = mc_hash_i(mc_hash_i(MC_H0, rk), nt & ~DFNT_LITEND);
             h          = mc_hash(h, dm, sizeof(int32) * (size_t)rk);
-            h          = mc_hash(h, b, (size_t)(ne * DFKNTsize(nt | DFNT_NATIVE)));
+            h          = mc_hash(h, b, (size_t)(ne * ESZ(nt)));
             int found  = 0;
             for (int i = 0; i < nsd; i++)
                 if (sdh[i] == h)
